@@ -119,7 +119,14 @@ func (g *Gateway) setSendReceiveBuffers(conn net.Conn) error {
 	if !valConn.IsValid() {
 		return errors.New("cannot find conn field")
 	}
-	valConn = valConn.Elem().Elem()
+	// tls.Conn holds a net.Conn interface around a *net.TCPConn, a plain
+	// *net.TCPConn (tls disabled) embeds the conn struct directly
+	for valConn.Kind() == reflect.Interface || valConn.Kind() == reflect.Ptr {
+		valConn = valConn.Elem()
+	}
+	if valConn.Kind() != reflect.Struct {
+		return errors.New("cannot find the underlying connection")
+	}
 
 	// net.FD
 	ptrNetFd := valConn.FieldByName("fd")
